@@ -156,6 +156,18 @@ func convCaseP(cc *pj.ConvCase, unknown, primed bool) core.Case {
 					add("p2j.Do", "input-modified", "the input buffer was modified")
 					copy(in, orig)
 				}
+				// the same options reached through SetOptions on a converter that was built with the opposite ones
+				if pi == nil {
+					cv2 := p2j.NewBinaryConv(conv.Options{Int642String: !opts.Int642String, DisallowUnknownField: !opts.DisallowUnknownField})
+					cv2.SetOptions(opts)
+					var o2 []byte
+					var e2 error
+					if pi2 := core.Catch(func() { o2, e2 = cv2.Do(context.Background(), c.In, in) }); pi2 != nil {
+						add("p2j.SetOptions+Do", "panic@"+pi2.Site+":"+core.PanicClass(pi2.Val), "panic: %s", pi2.Val)
+					} else if (e2 != nil) != (cerr != nil) || !bytes.Equal(o2, out) {
+						add("p2j.SetOptions+Do", "differs-from-converter-built-with-the-options", "SetOptions: %s (err %v); NewBinaryConv: %s (err %v)\ninput %x", o2, e2, out, cerr, in)
+					}
+				}
 				// DoInto with several capacities must behave like Do
 				caps := []int{0, 1, len(out) / 2, len(out)}
 				if pi == nil {
